@@ -374,7 +374,7 @@ func copyFileTo(src, dst string) error {
 }
 
 func runSourceFaults(c *Ctx) error {
-	fam := c.Rep.Family("source-faults", "one rich configuration (plain file, config file, glob, tree, symlink; the four lifecycle scripts and every format-specific script; a changelog file; signing key files for deb, rpm, apk), every referenced file a private copy. Exhaustively for every file reference x every format that uses it x two ways of making it unreadable (setting repointed to a path that does not exist; the copy renamed away), and for the plain, config and tree sources both again with disable_globbing (the source is then not matched up front, the packager meets the missing file when it reads it): Package must return a non-nil error; the reference is restored afterwards and the fault-free configuration re-checked at the end. The symlink entry is not a file reference (its source is the link text). non-trivial = always")
+	fam := c.Rep.Family("source-faults", "one rich configuration (plain file, config file, glob, tree, symlink; the four lifecycle scripts and every format-specific script; a changelog file; signing key files for deb, rpm, apk), every referenced file a private copy. Exhaustively for every file reference (incl. the sources of the rpm-only entry types doc, licence, license, readme) x every format that uses it x three ways of making it unreadable (setting repointed to a path that does not exist; the copy renamed away; setting repointed to a symbolic link whose target does not exist - for scripts, changelog, key files and the rpm-only entry types, whose content must be read; a file, config or tree source that is a symbolic link is shipped as that link), and for the plain, config and tree sources both again with disable_globbing (the source is then not matched up front, the packager meets the missing file when it reads it): Package must return a non-nil error; the reference is restored afterwards and the fault-free configuration re-checked at the end. The symlink entry is not a file reference (its source is the link text). non-trivial = always")
 	fam.Exhaustive = true
 	dir := filepath.Join(c.Tmp, "c06refs")
 	for _, d := range []string{"", "globdir", "treedir", "treedir/sub", "scripts", "gone"} {
@@ -403,6 +403,10 @@ func runSourceFaults(c *Ctx) error {
 	w("treedir/top.txt", "top\n")
 	w("treedir/sub/leaf", "leaf\n")
 	add(&c06Ref{name: "contents.tree", kind: "content-source", path: filepath.Join(dir, "treedir"), formats: Formats})
+	// the entry types only rpm ships (they take their source literally, no glob matching up front)
+	for _, ty := range []string{"doc", "licence", "license", "readme"} {
+		add(&c06Ref{name: "contents." + ty, kind: "content-source", path: w(ty+".txt", ty+" text\n"), formats: []string{"rpm"}})
+	}
 	allSel := map[string][]string{}
 	var selOrder []string
 	for _, f := range Formats {
@@ -446,6 +450,10 @@ func runSourceFaults(c *Ctx) error {
 			{Src: at("contents.glob"), Dst: "/etc/app/conf.d"},
 			{Src: at("contents.tree"), Dst: "/usr/share/app", Type: "tree"},
 			{Src: "/usr/bin/plain", Dst: "/usr/bin/plainlink", Type: "symlink"},
+			{Src: at("contents.doc"), Dst: "/usr/share/doc/app/MANUAL", Type: "doc"},
+			{Src: at("contents.licence"), Dst: "/usr/share/doc/app/LICENCE", Type: "licence"},
+			{Src: at("contents.license"), Dst: "/usr/share/doc/app/LICENSE", Type: "license"},
+			{Src: at("contents.readme"), Dst: "/usr/share/doc/app/README", Type: "readme"},
 		}}
 		if noglob {
 			// with globbing disabled a source is taken literally and first touched when it is read;
@@ -486,7 +494,14 @@ func runSourceFaults(c *Ctx) error {
 	for _, r := range refs {
 		for _, f := range r.formats {
 			variants := []string{"repointed", "renamed-away"}
-			if r.kind == "content-source" && r.name != "contents.glob" {
+			rpmOnlyType := strings.HasPrefix(r.name, "contents.doc") || strings.HasPrefix(r.name, "contents.lic") || r.name == "contents.readme"
+			if r.kind != "content-source" || rpmOnlyType {
+				// the setting names a symbolic link whose target does not exist (a link left behind by a cleaned build
+				// directory): lstat succeeds, reading fails.  Not for file / config / tree sources: a source that is a
+				// symbolic link is shipped as that link, with its literal target (C01), so nothing needs to be read
+				variants = append(variants, "dangling-symlink")
+			}
+			if r.kind == "content-source" && r.name != "contents.glob" && !rpmOnlyType {
 				variants = append(variants, "repointed+disable_globbing", "renamed-away+disable_globbing")
 			}
 			for _, variant := range variants {
@@ -499,6 +514,14 @@ func runSourceFaults(c *Ctx) error {
 					missing = filepath.Join(dir, "gone", "missing-"+filepath.Base(r.remove))
 					if r.remove != r.path { // glob: pattern under a directory that does not exist
 						missing = filepath.Join(missing, filepath.Base(r.path))
+					}
+					err, pv = safePackage(f, mk(map[string]string{r.name: missing}, noglob), io.Discard)
+				case "dangling-symlink":
+					missing = filepath.Join(dir, "gone", "dangling-"+filepath.Base(r.path))
+					_ = os.Remove(missing)
+					if serr := os.Symlink(filepath.Join(dir, "gone", "no-such-target-"+filepath.Base(r.path)), missing); serr != nil {
+						c.Rep.Note("source-faults: symlink %s: %v", missing, serr)
+						continue
 					}
 					err, pv = safePackage(f, mk(map[string]string{r.name: missing}, noglob), io.Discard)
 				default:
